@@ -148,6 +148,9 @@ impl Router {
             return true;
         }
 
+        #[cfg(feature = "verif-hooks")]
+        crate::hooks::emit(crate::hooks::Event::LoopApplying);
+
         match notification.method.as_str() {
             "textDocument/didChange" => {
                 let params = DidChangeTextDocumentParams::deserialize(notification.params).unwrap();
